@@ -61,9 +61,10 @@ int Scenario::Producer(const std::string& path) const {
     for (auto& o : s.imp_outs) if (o == path) return s.id;
   }
   for (const DyndepFile& d : dyndeps)
-    for (const DyndepEntry& e : d.entries)
-      if (e.stmt >= 0 && stmts[e.stmt].alive)
-        for (auto& o : e.imp_outs) if (o == path) return e.stmt;
+    if (!d.detached)
+      for (const DyndepEntry& e : d.entries)
+        if (e.stmt >= 0 && stmts[e.stmt].alive)
+          for (auto& o : e.imp_outs) if (o == path) return e.stmt;
   return -1;
 }
 
@@ -76,7 +77,7 @@ const DyndepEntry* Scenario::DyndepFor(int stmt) const {
   const Stmt& s = stmts[stmt];
   if (s.dyndep.empty()) return nullptr;
   const DyndepFile* d = FindDyndep(s.dyndep);
-  if (!d) return nullptr;
+  if (!d || d->detached) return nullptr;
   for (const DyndepEntry& e : d->entries) if (e.stmt == stmt) return &e;
   return nullptr;
 }
@@ -142,7 +143,7 @@ static void PrintStmt(const Scenario& sc, const Stmt& s, std::string* o) {
   if (!s.imp_outs.empty()) { *o += " |"; for (auto& p : s.imp_outs) *o += " " + NinjaPathEscape(p); }
   if (s.phony) *o += ": phony"; else { snprintf(buf, sizeof buf, ": r%d", s.id); *o += buf; }
   for (auto& p : s.ins) *o += " " + NinjaPathEscape(p);
-  if (!s.imp_ins.empty()) { *o += " |"; for (auto& p : s.imp_ins) *o += " " + NinjaPathEscape(p); }
+  if (!s.imp_ins.empty() || !s.extra_imp.empty()) { *o += " |"; for (auto& p : s.imp_ins) *o += " " + NinjaPathEscape(p); for (auto& p : s.extra_imp) *o += " " + NinjaPathEscape(p); }
   if (!s.oo_ins.empty()) { *o += " ||"; for (auto& p : s.oo_ins) *o += " " + NinjaPathEscape(p); }
   if (!s.validations.empty()) { *o += " |@"; for (auto& p : s.validations) *o += " " + NinjaPathEscape(p); }
   *o += "\n";
